@@ -100,7 +100,8 @@ class C03(Spec):
 
     def table_obligations(self):
         return ["c03_current_orders", "c03_no_consume", "c03_lock_tables", "c03_lock_tables_cover", "c03_mutex_no_touch_after_publish",
-                "c03_walk_reads_next_before_resume", "c03_unlock_unlinks_before_resume", "c03_final_resolve_before_destroy"]
+                "c03_walk_reads_next_before_resume", "c03_unlock_unlinks_before_resume", "c03_final_resolve_before_destroy",
+                "c03_awaiter_no_touch_after_publish", "c03_sites_accounted", "c03_rmw_shapes"]
 
     def prebuild(self):
         tsan_binary()
@@ -174,8 +175,17 @@ class C03(Spec):
                 scenarios += CLASS_SCENARIOS.get(cls, [])
         if broken & {"c03_mutex_no_touch_after_publish", "c03_unlock_unlinks_before_resume"}:
             found += self._baton_search("c07")
-        if broken & {"c03_walk_reads_next_before_resume", "c03_final_resolve_before_destroy"}:
+        if broken & {"c03_walk_reads_next_before_resume", "c03_final_resolve_before_destroy", "c03_awaiter_no_touch_after_publish"}:
             found += self._baton_search("c02")
+        if broken & {"c03_sites_accounted", "c03_rmw_shapes"}:
+            for other in ("c01", "c07", "c15", "c19"):
+                if not found:
+                    try:
+                        found += self._baton_search(other)
+                    except Exception as e:
+                        core.log("baton search %s: %r" % (other, e))
+            if not found:
+                scenarios += ALL_SCENARIOS
         seen = set()
         scenarios = [s for s in scenarios if not (s in seen or seen.add(s))]
         if scenarios:
@@ -199,7 +209,8 @@ class C03(Spec):
         spec = importlib.import_module("checks." + other).SPEC
         out = []
         for suite in spec.suites():
-            r = runner._run_suite(spec, suite, "thorough", random.Random(core.seed() + 13), {"driver_ok": False}, budget_scale=4)
+            r = runner._run_suite(spec, suite, "quick", random.Random(core.seed() + 13),
+                                  {"driver_ok": False, "escalate": 3, "seed": core.seed() + 13}, budget_scale=1)
             for it in r["crashes"][:1]:
                 out.append(("crash under the deterministic scheduler (%s suite)" % other, {"suite": suite.name, "case": it["case"]["lines"], "stderr": it["err"][-3000:]}))
             for it in r["oracle_fail"][:1]:
